@@ -151,6 +151,9 @@ type PathRules struct {
 	OnEdge func(s *PathState, cond ssa.Value, taken bool)
 	// OnExit is called at every Return (ret != nil) or Panic exit.
 	OnExit func(s *PathState, ret *ssa.Return, pan *ssa.Panic)
+	// OnPhi is called for every phi of a block when the block is entered over its edge number `edge`; all phis of the
+	// block see the state before any of them is updated; a returned effect is appended afterwards.
+	OnPhi func(s *PathState, phi *ssa.Phi, edge int) *Effect
 	// OnBackEdge is called before a loop back edge is taken; returning false ends the path there.
 	OnBackEdge func(s *PathState, from, to *ssa.BasicBlock) bool
 	LoopBound  int
@@ -205,6 +208,7 @@ func ExplorePaths(fn *ssa.Function, rules PathRules) PathResult {
 					}
 				}
 				upd := map[ssa.Value]AB{}
+				var phiEffects []Effect
 				for _, in := range b.Instrs {
 					phi, ok := in.(*ssa.Phi)
 					if !ok {
@@ -212,8 +216,14 @@ func ExplorePaths(fn *ssa.Function, rules PathRules) PathResult {
 					}
 					if idx >= 0 {
 						upd[phi] = s.Val(phi.Edges[idx])
+						if rules.OnPhi != nil {
+							if e := rules.OnPhi(s, phi, idx); e != nil {
+								phiEffects = append(phiEffects, *e)
+							}
+						}
 					}
 				}
+				s.Effects = append(s.Effects, phiEffects...)
 				for k, v := range upd {
 					s.Vals[k] = v
 					for ek := range s.Eq {
